@@ -40,7 +40,7 @@ def element(node: AbbreviationNode, index: int, items: list, state: IndentWalkSt
         out.push_string(s)
 
     push_primary_attributes(primary, state)
-    push_secondary_attributes(list(filter(should_output_attribute, secondary)), state)
+    push_secondary_attributes([a for a in secondary if a.name and should_output_attribute(a)], state)
 
     if node.self_closing and not node.value and not node.children:
         if state.options['selfClose']:
@@ -64,7 +64,9 @@ def collect_attributes(node: AbbreviationNode):
 
     if node.attributes:
         for attr in node.attributes:
-            if is_primary_attribute(attr):
+            # NB: `#` or `.` with nothing after it is not a valid shorthand:
+            # output empty `id` and `class` as regular attributes
+            if is_primary_attribute(attr) and has_content(attr):
                 primary.append(attr)
             else:
                 secondary.append(attr)
@@ -79,7 +81,7 @@ def push_primary_attributes(attrs: list, state: WalkState):
             if attr.name == 'class':
                 state.out.push_string('.')
                 # All whitespace characters must be replaced with dots in class names
-                tokens = [re.sub(r'\s+', '.', t) if isinstance(t, str) else t for t in attr.value]
+                tokens = [re.sub(r'\s+', '.', t) if isinstance(t, str) else t for t in trim_value(attr.value)]
                 push_tokens(tokens, state)
             else:
                 # ID attribute
@@ -128,6 +130,9 @@ def push_value(node: AbbreviationNode, state: IndentWalkState):
     if len(lines) == 1:
         if node.name or node.attributes:
             out.push(' ')
+        elif state.parent and options.get('beforeTextLine'):
+            # Text node on its own line inside element
+            out.push(options.get('beforeTextLine'))
         push_tokens(value, state)
     else:
         # We should format multi-line value with terminating `|` character
@@ -144,8 +149,10 @@ def push_value(node: AbbreviationNode, state: IndentWalkState):
             if l > max_length:
                 max_length = l
 
-        # Output each line, padded to max length
-        out.level += 1
+        # Output each line, padded to max length.
+        # NB: lines of a text node inside element are on the level of node itself
+        inner = 0 if is_snippet(node) and state.parent else 1
+        out.level += inner
         for i, line in enumerate(lines):
             out.push_newline(True)
             if before:
@@ -155,10 +162,29 @@ def push_value(node: AbbreviationNode, state: IndentWalkState):
                 out.push(' ' * (max_length - line_lengths[i]))
                 out.push(after)
 
-        out.level -= 1
+        out.level -= inner
 
 def is_primary_attribute(attr: AbbreviationAttribute):
     return attr.name == 'class' or attr.name == 'id'
+
+
+def has_content(attr: AbbreviationAttribute):
+    "Check if given attribute has something to output besides empty tabstops"
+    for token in attr.value or []:
+        if token.strip() if isinstance(token, str) else token.name:
+            return True
+
+    return False
+
+
+def trim_value(value: list):
+    "Removes whitespace around given attribute value"
+    value = value[:]
+    if value and isinstance(value[0], str):
+        value[0] = value[0].lstrip()
+    if value and isinstance(value[-1], str):
+        value[-1] = value[-1].rstrip()
+    return value
 
 
 def value_length(tokens: list):
@@ -175,4 +201,9 @@ def should_format(node: AbbreviationNode, index: int, items: list, state: WalkSt
     if not state.parent and index == 0:
         return False
 
-    return not is_snippet(node)
+    # NB: text inside element goes on its own line, otherwise it will be read
+    # as a part of element name or as a text of preceding sibling
+    if is_snippet(node):
+        return bool(state.parent and node.value and not node.children and len(split_by_lines(node.value)) == 1)
+
+    return True
